@@ -46,7 +46,7 @@ def stopCmd (args : List String) : String :=
     if !(run = "inline" ∨ run = "spawn") ∨ !(handle = "caller" ∨ handle = "internal") ∨
        (handle = "internal" ∧ run ≠ "spawn") then "BADARG"
     else if point = "badmsg" then "RES ERR closes=1 recv_after_clear_le1=1 late_cb=0 latency_ok=1 strong=1"
-    else if point = "pre" ∨ point = "mid" ∨ point = "blocked" ∨ point = "flood" then
+    else if point = "pre" ∨ point = "mid" ∨ point = "blocked" ∨ point = "flood" ∨ point = "quiet" then
       "RES OK closes=1 recv_after_clear_le1=1 late_cb=0 latency_ok=1 strong=1"
     else "BADARG"
   | _ => "BADARG"
